@@ -191,3 +191,25 @@ Example seen_never_idle_nonvacuous :
                               (mkids 0 0 [] 2%nat false, []) in
   seen = [5; 3; 1] /\ open_ids s = [3] /\ classify s 5 = IdClosed /\ classify s 1 = IdClosed /\ classify s 7 = IdIdle.
 Proof. vm_compute. repeat split; reflexivity. Qed.
+
+(** 7. Proxy-initiated GOAWAY.  While the connection drains, whatever the
+    interleaving of client DATA, forwarding to the backend and shutdown passes,
+    DATA belonging to a request that has not ended is never answered
+    GOAWAY(STREAM_CLOSED): graceful shutdown does not cut an upload in flight. *)
+Theorem upload_not_cut :
+  forall evs n es,
+    let s := fold_left (fun st e => fst (upstep true st e)) evs (mkup false 0 false) in
+    terminated s = false -> snd (upstep true s (UData n es)) = UOk.
+Proof. exact upload_not_cut_l. Qed.
+
+(** the condition before fix 26165b4 (a momentarily drained buffer was enough): the witness
+    replayed black-box by the graceful_shutdown phase of c15bb *)
+Example upload_cut_before_fix :
+  let s := fold_left (fun st e => fst (upstep false st e)) [UData 100 false; UForward; UShutdownPass] (mkup false 0 false) in
+  terminated s = false /\ snd (upstep false s (UData 9 true)) = UStreamClosedError.
+Proof. vm_compute. split; reflexivity. Qed.
+
+Example upload_not_cut_nonvacuous :
+  let s := fold_left (fun st e => fst (upstep true st e)) [UData 100 false; UForward; UShutdownPass] (mkup false 0 false) in
+  terminated s = false /\ upstep true s (UData 9 true) = (mkup true 9 true, UOk).
+Proof. vm_compute. split; reflexivity. Qed.
